@@ -41,6 +41,9 @@ def main(tier):
     items.extend(gen.cast_call_matrix())
     for name, text in gen.chained_assignments(rng, tier == "thorough"):
         items.append(dict(name=name, text=text, exports=gen.cast_exports(name)))
+    cc = gen.compound_conversions()
+    for name, text in (cc if tier == "thorough" else rng.sample(cc, 140)):
+        items.append(dict(name=name, text=text, exports=gen.cast_exports(name)))
     for name, text in gen.cast_chains(rng, 120 if tier == "quick" else 1500):
         items.append(dict(name=name, text=text))
     for it in items:
